@@ -217,7 +217,7 @@ def run_cell(rec, cell):
                         if before[k] != after[k]}
                 rec.viol('refused-request-had-effect', 'refused request (%s) '
                          'changed state: %s' % (desc, str(diff)[:500]), case)
-        if rec.evaluations % 1511 == 0:
+        if rec.evaluations % 1511 == 1:
             rec.sample({'request': desc, 'must_refuse': want,
                         'status': t.status})
     finally:
